@@ -2,7 +2,7 @@
     complete, which is what lets a slot be located from the size alone.
     Statements only; proofs are in HeapProofs.v.  The model (HeapModel.v)
     transcribes src/heap.c and cstl_fls of src/common.c. *)
-From Cstl Require Import Prelude HeapModel HeapProofs HeapLinks.
+From Cstl Require Import Prelude HeapModel HeapProofs HeapLinksModel HeapLinks.
 Local Open Scope N_scope.
 
 (** cstl_fls, as coded (binary search with a 64-bit mask), is the position of
